@@ -72,6 +72,10 @@ type hsOpts struct {
 	// only, k+1 = the k-th conn operation of that endpoint blocks until Close.
 	ClientCtx, ServerCtx     context.Context
 	ClientStall, ServerStall int
+	// ClientAfterOp / ServerAfterOp = k > 0: OnAfterOp runs right after that endpoint's conn op k-1
+	// has completed (between two I/O steps)
+	ClientAfterOp, ServerAfterOp int
+	OnAfterOp                    func()
 	Stalled                  chan struct{} // closed when the stall point is entered
 	// > 0: that endpoint's reads return at most this many bytes per call (trickling link)
 	ClientReadChunk, ServerReadChunk int
@@ -136,6 +140,12 @@ func hsRun(o hsOpts) *hsResult {
 			x.e.Stalled = o.Stalled
 		}
 	}
+	if o.ClientAfterOp > 0 {
+		ce.AfterOp, ce.OnAfterOp = o.ClientAfterOp-1, o.OnAfterOp
+	}
+	if o.ServerAfterOp > 0 {
+		se.AfterOp, se.OnAfterOp = o.ServerAfterOp-1, o.OnAfterOp
+	}
 	ctx := context.Background()
 	cctx, sctx := ctx, ctx
 	if o.ClientCtx != nil {
@@ -169,7 +179,7 @@ func hsRun(o hsOpts) *hsResult {
 		p.Stream = stream.NewStream(ce)
 		p.Auth = security.NewAuthenticator(p.Cfg, p.Stream)
 		p.Neg, p.Err = p.Auth.ClientHandshake(cctx)
-		p.ClosedByEndpoint = ce.IsClosed() || p.Err != nil && o.ClientCtx != nil && o.ClientStall > 0 && ce.ClosedSoon(3*time.Second)
+		p.ClosedByEndpoint = ce.IsClosed() || p.Err != nil && o.ClientCtx != nil && (o.ClientStall > 0 || o.ClientAfterOp > 0) && ce.ClosedSoon(3*time.Second)
 		if p.Err != nil {
 			ce.Close()
 			return
@@ -181,13 +191,14 @@ func hsRun(o hsOpts) *hsResult {
 		}
 		if o.App {
 			if err := p.Stream.SendMessage(cctx, []byte("ping-from-client")); err != nil {
-				p.ClosedByEndpoint = ce.IsClosed() || (p.Err != nil || p.AppErr != nil) && o.ClientCtx != nil && o.ClientStall > 0 && ce.ClosedSoon(3*time.Second)
+				p.AppErr = err // (set first: the close that follows a cancellation is asynchronous and is waited for only after an error)
+				p.ClosedByEndpoint = ce.IsClosed() || (p.Err != nil || p.AppErr != nil) && o.ClientCtx != nil && (o.ClientStall > 0 || o.ClientAfterOp > 0) && ce.ClosedSoon(3*time.Second)
 				p.AppErr = err
 				ce.Close()
 				return
 			}
 			p.AppGot, p.AppErr = p.Stream.ReceiveCompleteMessage(cctx)
-			p.ClosedByEndpoint = ce.IsClosed() || (p.Err != nil || p.AppErr != nil) && o.ClientCtx != nil && o.ClientStall > 0 && ce.ClosedSoon(3*time.Second)
+			p.ClosedByEndpoint = ce.IsClosed() || (p.Err != nil || p.AppErr != nil) && o.ClientCtx != nil && (o.ClientStall > 0 || o.ClientAfterOp > 0) && ce.ClosedSoon(3*time.Second)
 			if p.AppErr != nil {
 				ce.Close()
 			}
@@ -212,7 +223,7 @@ func hsRun(o hsOpts) *hsResult {
 			p.Auth.ServerConfigForCommand = o.ServerCfgForCmd
 		}
 		p.Neg, p.Err = p.Auth.ServerHandshake(sctx)
-		p.ClosedByEndpoint = se.IsClosed() || p.Err != nil && o.ServerCtx != nil && o.ServerStall > 0 && se.ClosedSoon(3*time.Second)
+		p.ClosedByEndpoint = se.IsClosed() || p.Err != nil && o.ServerCtx != nil && (o.ServerStall > 0 || o.ServerAfterOp > 0) && se.ClosedSoon(3*time.Second)
 		if p.Err != nil {
 			se.Close()
 			return
@@ -224,13 +235,14 @@ func hsRun(o hsOpts) *hsResult {
 		}
 		if o.App {
 			p.AppGot, p.AppErr = p.Stream.ReceiveCompleteMessage(sctx)
-			p.ClosedByEndpoint = se.IsClosed() || (p.Err != nil || p.AppErr != nil) && o.ServerCtx != nil && o.ServerStall > 0 && se.ClosedSoon(3*time.Second)
+			p.ClosedByEndpoint = se.IsClosed() || (p.Err != nil || p.AppErr != nil) && o.ServerCtx != nil && (o.ServerStall > 0 || o.ServerAfterOp > 0) && se.ClosedSoon(3*time.Second)
 			if p.AppErr != nil {
 				se.Close()
 				return
 			}
 			if err := p.Stream.SendMessage(sctx, []byte("pong-from-server")); err != nil {
-				p.ClosedByEndpoint = se.IsClosed() || (p.Err != nil || p.AppErr != nil) && o.ServerCtx != nil && o.ServerStall > 0 && se.ClosedSoon(3*time.Second)
+				p.AppErr = err
+				p.ClosedByEndpoint = se.IsClosed() || (p.Err != nil || p.AppErr != nil) && o.ServerCtx != nil && (o.ServerStall > 0 || o.ServerAfterOp > 0) && se.ClosedSoon(3*time.Second)
 				p.AppErr = err
 				se.Close()
 			}
